@@ -530,6 +530,9 @@ func (in *Interp) nativeMethod(recv Iface, meth *types.Func) Value {
 			}}
 		}
 	}
+	if rt, ok := recv.V.(*rtypeModel); ok {
+		return in.rtypeMethod(rt, meth.Name())
+	}
 	n, ok := recv.V.(*Native)
 	if !ok || n == nil {
 		return nil
